@@ -11,39 +11,51 @@ REAL exported functions on every case and records input and output; spec/Placeme
 the recorded file, compares every output with the model of the code (strict, DRIFT) and evaluates the
 property formulas on it (monitor, VIOL).  Expectations are computed by the TLA+ definitions only.
 
-Round level: specified and model checked; the trace specification for the lines the whole-core simulation
-will emit is self-tested here on synthetic rounds (toy allocator of the driver, and outcomes of the TLA+
-implementation-shaped model) - that self-test is no evidence about the real scheduler and is labelled so.
+Binding (round level): the OFFERS rounds of a TLC-enumerated catalogue (<= 2 offers x <= 3 descriptors) are rendered
+as workflows + task templates + clusters and run on the REAL core in the whole-core simulation (harness/coresim);
+the master-side record (offers sent, ACCEPT/DECLINE received, core panic) is validated by TLC: PlacementOK as soft
+invariants (monitor) and the implementation-shaped round model as conformance.  The round-level trace specification
+is additionally self-tested on synthetic rounds (toy allocator of the driver, outcomes of the TLA+ round model) -
+that self-test is no evidence about the real scheduler and is labelled so.
 """
 import json
 import re
 
+import coresim as cs
 import tlaval
 import vlib
 
 KEY_SAT = "satisfy-last-constraint-only"
 KEY_RNG = "range-end-read-from-begin"
+KEY_SCALAR = "offer-scalars-not-subtracted"
+KEY_STATIC = "static-ports-not-reserved"
+KEY_PANIC = "no-port-left-panics-core"
 W = min(4, vlib.NCPU)
+EXEC = {"cpu": 10, "mem": 64}   # the core's default executor share: executorCPU 0.01, executorMemory 64
 
 PURE_INVS = ["ImplSatIsSat", "ImplParseIsParse", "SatIsConjunction", "MergeNearestWins", "FitsMonotone", "FitsImplSound",
              "ParseDenotes"]
 # model invariant -> the monitor's soft invariant that must flag the replayed counterexample
-MONITOR_OF = {"ImplSatIsSat": "SatAllConstraints", "ImplParseIsParse": "RangesAsWritten"}
+MONITOR_OF = {"ImplSatIsSat": "SatAllConstraints", "ImplParseIsParse": "RangesAsWritten",
+              "RoundP1": "P1_ConstraintsAndResources", "RoundP2": "P2_TaskPorts", "RoundP3": "P3_PortsOfferedAndDistinct",
+              "RoundP4": "P4_OfferNotExceeded", "RoundP5": "P5_UnusedDeclined", "RoundNoPanic": "NoPanic"}
+ROUND_PARTS = ["RoundP1", "RoundP2", "RoundP3", "RoundP4", "RoundP5", "RoundNoPanic"]
 
 
 def tf(b):
     return "TRUE" if b else "FALSE"
 
 
-def consts(sat, rng, scalar, static, classes, tier):
+def consts(sat, rng, scalar, static, classes, panic, tier):
     return """CONSTANTS
   Code_SatisfyLastConstraintOnly = %s
   Code_RangeEndIsBegin = %s
   Code_NoScalarSubtraction = %s
   Code_StaticPortsNotReserved = %s
   Code_FitsIgnoresPortClasses = %s
+  Code_MinOnEmptyPanics = %s
   Tier = "%s"
-""" % (tf(sat), tf(rng), tf(scalar), tf(static), tf(classes), tier)
+""" % (tf(sat), tf(rng), tf(scalar), tf(static), tf(classes), tf(panic), tier)
 
 
 def cfg(spec, k, invs):
@@ -92,17 +104,20 @@ def run(ctx):
         "role chains are built from workflow template YAML by the code's own unmarshalling (aggregator roles ending in a task "
         "role), without template processing, iterator or include roles",
         "Resources.Satisfy is called with one cpus, one mem and one ports resource (or without one of them)",
-        "ROUND LEVEL: the OFFERS handler (scheduler.go resourceOffers / makeTaskForMesosResources) is specified (PlacementOK) "
-        "and modelled here but NOT yet exercised on the real code: that needs the whole-core simulation; the round-level trace "
-        "specification is self-tested on synthetic rounds only",
+        "ROUND LEVEL: OFFERS rounds are run on the real core in the whole-core simulation (simulated Mesos master: every agent's "
+        "full resources are offered on REVIVE, so resources held by tasks of EARLIER rounds are offered again - distinctness of "
+        "ports and the resource sums are judged within one round); the executor share is the core's default (0.01 cpu, 64 MB); "
+        "cpu is compared in milli-cores after rounding; dynamic and control ports are read from TaskInfo.Resources only",
     ]
     ctx.rule = ("pure level: one evaluation = one input case of Satisfy / MergeParent / role chain + BuildDescriptorConstraints (+Satisfy on "
                 "3 agents) / Resources.Satisfy / RangesFromExpression (+ResourceWants YAML), enumerated exhaustively by TLC from the "
                 "catalogues of Placement.tla (tier-sized) plus seeded random cases beyond them (tlc -simulate, RandomElement); every case "
-                "is run on the real function and validated by TLC; distinct = distinct (function, input)")
+                "is run on the real function and validated by TLC; distinct = distinct (function, input).  Round level: one evaluation = one "
+                "round of the catalogue of Placement.tla (offers x descriptors, enumerated by TLC; quick tier: a seeded sample) deployed on the "
+                "real core by the whole-core simulation; every OFFERS round of it (retries included) is validated by TLC")
 
     # ---------------- 1. pure level: model checking over the catalogues
-    k_pure = consts(dev_sat, dev_rng, False, False, True, tier)
+    k_pure = consts(dev_sat, dev_rng, False, False, True, True, tier)
     invs = list(PURE_INVS)
     predicted = {}   # model invariant -> counterexample case
     first = None
@@ -179,7 +194,7 @@ def run(ctx):
             ctx.sample({"fn": fn, "in": x["in"], "out": x["out"]})
 
     # ---------------- 4. trace validation by TLC: conformance + monitor
-    k_trace = consts(dev_sat, dev_rng, False, False, True, "quick")
+    k_trace = consts(dev_sat, dev_rng, False, False, True, True, "quick")
     viol, drift, tr = ctx.validate("PlacementTrace", None, trace_file, cfg_text="SPECIFICATION TraceSpec\n" + k_trace +
                                    "INVARIANT PrintEnd\nCHECK_DEADLOCK FALSE\n", timeout=800)
     if tr.records("OPENROUND"):
@@ -217,39 +232,207 @@ def run(ctx):
         ex = by_id.get(ids[0], {})
         ctx.observations.append("over-rejection (not a C05 violation) %s: %d case(s), e.g. %s" % (label, len(ids), json.dumps(ex.get("in"))[:220]))
 
-    # ---------------- 5. round level: model checking
-    k_rep = consts(False, False, False, False, False, tier)
+    # ---------------- 5. round level
+    round_level(ctx, binp, dev_sat, dev_rng)
+
+
+def round_level(ctx, binp, dev_sat, dev_rng):
+    quick = ctx.tier == "quick"
+    tier = ctx.tier
+    dev_scalar, dev_static, dev_panic = (ctx.deviation_open(k) for k in (KEY_SCALAR, KEY_STATIC, KEY_PANIC))
+    # 5a. the intended algorithm satisfies PlacementOK (consistency of the relational specification)
+    k_rep = consts(False, False, False, False, False, False, tier)
     rr = ctx.model_check("Placement", "round-repaired-" + tier, cfg_text=cfg("RoundSpec", k_rep, ["RoundOK", "RoundNoPanic"]), workers=W)
     if rr.violated:
         ctx.save_debug(rr, "tlc_round_repaired.txt")
         raise vlib.Inconclusive("the intended placement algorithm violates PlacementOK in the model (specification error): %s" % rr.violated)
-    # the code as read (candidates, unconfirmed): which parts of PlacementOK does the model predict to break?
-    k_asis = consts(dev_sat, dev_rng, True, True, True, tier)
-    pred = {}
-    parts = ["RoundP1", "RoundP2", "RoundP3", "RoundP4", "RoundP5", "RoundNoPanic"]
-    # thorough: one run per part of PlacementOK (TLC stops at the first violated invariant); quick: the first one only
-    for group in ([parts] if quick else [[x] for x in parts]):
-        ra = ctx.tlc("Placement", None, workers=W, cfg_text=cfg("RoundSpec", k_asis, group), timeout=300)
-        if ra.crashed:
-            raise vlib.Inconclusive("TLC failed on the as-read round model: %s" % vlib.tail(ra.out))
-        if ra.violated:
-            inv = ra.violated[0]
-            ce = ra.counterexample()
-            last = to_json(ce[-1][2]["rd"]) if ce else {}
-            pred[inv] = {"offers": [o["id"] for o in last.get("offers", [])], "descs": [d["id"] for d in last.get("descs", [])],
-                         "accepts": last.get("accepts")}
-    ctx.extra["round_model_as_read"] = {"constants": {"Code_SatisfyLastConstraintOnly": dev_sat, "Code_RangeEndIsBegin": dev_rng,
-                                                      "Code_NoScalarSubtraction": True, "Code_StaticPortsNotReserved": True,
-                                                      "Code_FitsIgnoresPortClasses": True},
-                                        "predicted_violations": pred,
-                                        "status": "prediction from code reading, NOT replayed on the real scheduler (needs coresim)"}
-    if pred:
-        ctx.observations.append("round level (model only, not evidence): with scheduler.go as read (cpu/mem not subtracted, static ports not "
-                                "reserved, port classes ignored by Resources.Satisfy) the model breaks %s%s; to be replayed by the whole-core "
-                                "simulation" % (", ".join(sorted(pred)), " (quick tier: first violated part only)" if quick else ""))
+    # 5b. the scheduler as it is (deviation constants of the open findings): which parts of PlacementOK break?
+    k_code = consts(dev_sat, dev_rng, dev_scalar, dev_static, True, dev_panic, tier)
+    predicted = {}
+    parts = list(ROUND_PARTS)
+    while parts:
+        ra = ctx.model_check("Placement", "round-code-" + tier, cfg_text=cfg("RoundSpec", k_code, parts), workers=W, timeout=300)
+        if not ra.violated:
+            break
+        inv = ra.violated[0]
+        ce = ra.counterexample()
+        last = to_json(ce[-1][2]["rd"]) if ce else {}
+        predicted[inv] = {"offers": [o["id"] for o in last.get("offers", [])], "descs": [d["id"] for d in last.get("descs", [])],
+                          "accepts": last.get("accepts")}
+        parts.remove(inv)
+    ctx.extra["round_model_of_the_code"] = {"predicted_violations": predicted}
 
-    # ---------------- 6. round level: self-test of the trace specification (synthetic rounds - no evidence about the code)
-    selftest(ctx, binp, k_rep, k_asis)
+    # 5c. self-test of the round-level trace specification on synthetic rounds (no evidence about the code)
+    outs, rounds = selftest(ctx, binp, k_rep, k_code)
+
+    # 5d. the rounds of the catalogue on the REAL core (whole-core simulation), validated by TLC
+    cat = []
+    for r in rounds:
+        rnd = dict(zip(("offers", "descs", "exec"), (to_json(x) for x in r[1:4])))
+        if rnd["exec"] != EXEC:
+            continue
+        cat.append(rnd)
+    want = set(predicted)
+    rng = __import__("random").Random(ctx.seed)
+    if quick and len(cat) > 110:
+        # quick tier: the model's counterexample rounds plus a seeded sample of the catalogue
+        ce = {(tuple(v["offers"]), tuple(v["descs"])) for v in predicted.values()}
+        forced = [r for r in cat if (tuple(o["id"] for o in r["offers"]), tuple(d["id"] for d in r["descs"])) in ce]
+        rest = [r for r in cat if r not in forced]
+        rng.shuffle(rest)
+        cat = forced + rest[:110 - len(forced)]
+    scenarios = [round_scenario(100 + i, rnd) for i, rnd in enumerate(cat)]
+    by_id = {s["id"]: s for s in scenarios}
+    lines = cs.run_scenarios(ctx, scenarios, timeout=900)
+    tlines, nrounds, incomplete = project_rounds(lines, by_id)
+    if len(incomplete) > max(2, len(scenarios) // 20):
+        raise vlib.Inconclusive("%d of %d OFFERS rounds were not answered in time by the core: %s" % (len(incomplete), len(scenarios), incomplete[:10]))
+    scenarios = [s for s in scenarios if s["id"] not in set(incomplete)]
+    tf_ = ctx.path("rounds.ndjson")
+    ctx.write_ndjson(tf_, tlines)
+    viol, drift, tr = ctx.validate("PlacementTrace", None, tf_, cfg_text="SPECIFICATION TraceSpec\n" + k_code +
+                                   "INVARIANT PrintEnd\nCHECK_DEADLOCK FALSE\n", timeout=800)
+    if tr.records("OPENROUND"):
+        raise vlib.Inconclusive("round trace ended inside a round")
+    ctx.log("rounds on the real core: %d scenarios, %d OFFERS rounds, %d lines, %d VIOL, %d DRIFT (%.1fs)" % (
+        len(scenarios), nrounds, len(tlines), len(viol), len(drift), tr.wall))
+    ctx.traces += len(scenarios)
+    ctx.extra["rounds_on_real_core"] = {"scenarios": len(scenarios), "offers_rounds": nrounds, "trace_lines": len(tlines),
+                                        "not_answered_in_time": len(incomplete),
+                                        "core_panics": sum(1 for x in tlines if x["ev"] == "Panic")}
+    for s in scenarios:
+        m = s["model"]
+        ctx.count_case("round" + json.dumps([m["offers"], m["descs"]], sort_keys=True))
+    ex = scenarios[0]
+    ctx.sample({"round_scenario": {"offers": ex["model"]["offers"], "descs": ex["model"]["descs"]},
+                "trace": [x for x in tlines if x["scn"] == ex["id"]][:6]})
+    for d in drift:
+        ctx.drift.append({"scn": d[1], "line": d[2], "what": str(d[3])[:300], "origin": "round"})
+    seen, flagged = set(), set()
+    for v in viol:
+        inv, scn, line, detail = v[1], v[2], v[3], v[4]
+        pattern = detail[0] if isinstance(detail, list) and detail and isinstance(detail[0], str) else "-"
+        flagged.add(inv)
+        if (inv, scn) in seen:
+            continue
+        seen.add((inv, scn))
+        s = by_id.get(scn, {})
+        ctx.add_violation({"inv": inv, "pattern": pattern, "fn": "round", "scn": scn, "line": line, "origin": "catalogue"},
+                          replay_obj={"scenario": s, "trace": [x for x in tlines if x["scn"] == scn]})
+    for inv in sorted(want):
+        if MONITOR_OF[inv] not in flagged:
+            if quick:
+                ctx.observations.append("the model of the scheduler predicts a violation of %s that the sampled rounds of the quick tier did "
+                                        "not show (thorough tier replays the whole catalogue)" % inv)
+            else:
+                raise vlib.Inconclusive("MODEL-UNREPRODUCED: the model of the scheduler violates %s (%s) but no round of the catalogue run on the "
+                                        "real core was flagged with %s" % (inv, json.dumps(predicted[inv])[:300], MONITOR_OF[inv]))
+
+
+def yq(v):
+    return '"%s"' % v
+
+
+def round_scenario(sid, rnd):
+    """One OFFERS round of the catalogue as a whole-core scenario: the offers become the cluster, every descriptor a task
+    template + a task role (its constraint chain spread over template / group role / task role)."""
+    files = {}
+    roles = ""
+    classes = {}
+    for d in rnd["descs"]:
+        cls = "c05s%d%s" % (sid, d["id"])
+        classes[cls] = d["id"]
+        if "chain" in d:
+            class_cts, group_cts, task_cts = d["chain"]
+        else:
+            class_cts, group_cts, task_cts = [], None, d["constraints"]
+        y = "name: %s\ncontrol:\n  mode: %s\nwants:\n  cpu: %s\n  memory: %s\n" % (
+            cls, "direct" if d["controllable"] else "basic", d["cpu"] / 1000.0, d["mem"])
+        if d["static_expr"] != "":
+            y += "  ports: %s\n" % yq(d["static_expr"])
+        if d["tcp_inbound"] + d["ipc_inbound"] > 0:
+            y += "bind:\n"
+            for i in range(d["tcp_inbound"]):
+                y += "  - name: t%d\n    type: push\n" % i
+            for i in range(d["ipc_inbound"]):
+                y += "  - name: i%d\n    type: push\n    addressing: ipc\n" % i
+        if class_cts:
+            y += "constraints:\n" + "".join("  - attribute: %s\n    value: %s\n" % (c["attr"], yq(c["value"])) for c in class_cts)
+        y += "command:\n  shell: true\n  value: \"sleep 1000\"\n"
+        files["tasks/%s.yaml" % cls] = y
+
+        def cts_yaml(cts, ind):
+            if not cts:
+                return ""
+            return ind + "constraints:\n" + "".join("%s  - attribute: %s\n%s    value: %s\n" % (ind, c["attr"], ind, yq(c["value"])) for c in cts)
+        if group_cts is None:
+            roles += "  - name: %s\n" % yq(d["id"]) + cts_yaml(task_cts, "    ") + "    task:\n      load: %s\n" % cls
+        else:
+            roles += "  - name: %s\n" % yq("g" + d["id"]) + cts_yaml(group_cts, "    ") + "    roles:\n"
+            roles += "      - name: %s\n" % yq(d["id"]) + cts_yaml(task_cts, "        ") + "        task:\n          load: %s\n" % cls
+    wf = "c05wf%d" % sid
+    files["workflows/%s.yaml" % wf] = "name: %s\nroles:\n%s" % (wf, roles)
+    agents = [{"ID": "a" + o["id"], "Host": o["host"], "Attrs": o["attrs"], "CPUs": o["cpus"] / 1000.0, "Mem": o["mem"],
+               "Ports": o["ports"]} for o in rnd["offers"]]
+    # a core process of its own per scenario (child mode): the step runs the FIRST offers round of the deployment and kills
+    # the core - a panic of the OFFERS handler is an observation like any other, and deployment retries stay out
+    return {"id": sid, "family": "C05", "agents": agents, "files": files, "core": {"child": True}, "scripts": [], "hooks": {},
+            "steps": [{"do": "c05_round", "env": "e1", "wf": wf, "timeout_ms": 10000}],
+            "model": {"offers": rnd["offers"], "descs": rnd["descs"], "classes": classes}}
+
+
+def project_rounds(lines, by_id):
+    """Master-side events of the whole-core simulation -> Round / Accept / Decline / RoundEnd / Panic lines
+    (first OFFERS round of every scenario)."""
+    out = []
+    nrounds, incomplete = 0, []
+    per = {}
+    for ln in lines:
+        per.setdefault(ln.get("scn", -1), []).append(ln)
+    for scn in sorted(per):
+        s = by_id.get(scn)
+        if s is None:
+            continue
+        m = s["model"]
+        rl = []
+        state = "before"
+        for ln in per[scn]:
+            ev = ln["ev"]
+            if ev == "MOffers":
+                if state != "before":
+                    break            # a later round (deployment retry): not looked at
+                offers = [{"id": o["id"], "host": o["host"], "attrs": o["attrs"], "cpus": int(round(o["cpus"] * 1000)),
+                           "mem": int(round(o["mem"])), "ports": o["ports"]} for o in ln["offers"]]
+                rl.append({"ev": "Round", "scn": scn, "offers": offers, "descs": m["descs"], "exec": EXEC})
+                state = "open"
+            elif ev == "MAccept" and state == "open":
+                tasks = []
+                for t in ln["tasks"]:
+                    tasks.append({"desc": m["classes"].get(t["class"], t["class"]), "cpu": int(round(t["cpu"] * 1000)),
+                                  "mem": int(round(t["mem"])), "ports": t["ports"]})
+                for oid in ln["offers"]:
+                    rl.append({"ev": "Accept", "scn": scn, "offer": oid, "tasks": tasks})
+            elif ev == "MDecline" and state == "open":
+                rl.append({"ev": "Decline", "scn": scn, "offers": ln["offers"]})
+            elif ev == "C05Round":
+                if ln.get("error"):
+                    raise vlib.Inconclusive("coresim scenario %d: %s" % (scn, ln["error"]))
+                if ln["panic"] or not ln["alive"]:
+                    if state != "open":
+                        raise vlib.Inconclusive("the core of scenario %d died outside an OFFERS round: %s" % (scn, ln["panic"]))
+                    rl.append({"ev": "Panic", "scn": scn, "what": ln["panic"] or "core process gone"})
+                    state = "closed"
+                elif not ln["complete"]:
+                    state = "incomplete"
+                break
+        if state == "open":
+            rl.append({"ev": "RoundEnd", "scn": scn})
+        elif state != "closed":
+            incomplete.append(scn)
+            continue
+        out += rl
+        nrounds += 1
+    return out, nrounds, incomplete
 
 
 def outcome_lines(scn, o):
@@ -266,7 +449,9 @@ def outcome_lines(scn, o):
            "undeployable": verdict["undeployable"]}
 
 
-def selftest(ctx, binp, k_rep, k_asis):
+def selftest(ctx, binp, k_rep, k_code):
+    """SELF-TEST of the round-level trace specification on synthetic rounds - no evidence about the real scheduler.
+    Returns the OUTCOME and ROUND records of the implementation-shaped model under the constants of the code."""
     tcfg = lambda k: "SPECIFICATION TraceSpec\n" + k + "INVARIANT PrintEnd\nCHECK_DEADLOCK FALSE\n"
     # (a) toy allocator of the driver, faults injected per round
     tf_ = ctx.path("synth.ndjson")
@@ -292,8 +477,8 @@ def selftest(ctx, binp, k_rep, k_asis):
     if bad:
         ctx.save_debug(r, "tlc_synth.txt")
         raise vlib.Inconclusive("SELF-TEST of the round-level trace specification failed: " + "; ".join(bad[:4]))
-    # (b) outcomes of the implementation-shaped TLA+ model (code as read): monitor verdict must equal the model's, zero drift
-    g = ctx.tlc("PlacementGen", None, workers=1, cfg_text=cfg("GenRoundSpec", k_asis, ["EmitRound"]), timeout=300)
+    # (b) outcomes of the implementation-shaped TLA+ model of the code: monitor verdict must equal the model's, zero drift
+    g = ctx.tlc("PlacementGen", None, workers=1, cfg_text=cfg("GenRoundSpec", k_code, ["EmitRound"]), timeout=300)
     outs = g.records("OUTCOME")
     rounds = g.records("ROUND")
     if not g.no_error or not outs:
@@ -304,7 +489,7 @@ def selftest(ctx, binp, k_rep, k_asis):
     for i, o in enumerate(outs):
         lines += list(outcome_lines(20000 + i, o))
     ctx.write_ndjson(mf, lines)
-    r2 = ctx.tlc("PlacementTrace", None, workers=1, env={"TRACE_FILE": mf}, cfg_text=tcfg(k_asis), timeout=600)
+    r2 = ctx.tlc("PlacementTrace", None, workers=1, env={"TRACE_FILE": mf}, cfg_text=tcfg(k_code), timeout=600)
     if not r2.records("END") or not r2.no_error or r2.records("OPENROUND"):
         ctx.save_debug(r2, "tlc_modelrounds.txt")
         raise vlib.Inconclusive("SELF-TEST: trace specification did not consume the model outcomes: %s" % vlib.tail(r2.out, 12))
@@ -324,13 +509,7 @@ def selftest(ctx, binp, k_rep, k_asis):
     ctx.extra["round_trace_spec_selftest"] = {
         "note": "synthetic - no evidence about the real scheduler",
         "toy_rounds": len(expect), "toy_rounds_violating": sum(1 for e in expect if e["expect"]),
-        "model_outcomes": len(outs), "model_outcomes_violating": sum(1 for i in range(len(outs)) if got2.get(20000 + i)),
-        "round_scenarios_for_coresim": len(rounds)}
+        "model_outcomes": len(outs), "model_outcomes_violating": sum(1 for i in range(len(outs)) if got2.get(20000 + i))}
     ctx.log("self-test: %d toy rounds, %d model outcomes (%d violating) - trace specification agrees" % (
         len(expect), len(outs), ctx.extra["round_trace_spec_selftest"]["model_outcomes_violating"]))
-
-
-def round_scenarios(ctx, tier="quick"):
-    """Rounds of the catalogue as scenarios for the whole-core simulation: [{offers, descs, exec}]."""
-    g = ctx.tlc("PlacementGen", None, workers=1, cfg_text=cfg("GenRoundSpec", consts(False, False, False, False, False, tier), ["EmitRound"]))
-    return [dict(zip(("offers", "descs", "exec"), (to_json(x) for x in r[1:4]))) for r in g.records("ROUND")]
+    return outs, rounds
